@@ -23,6 +23,7 @@ import (
 	"fmt"
 	"math/rand"
 	"os"
+	"os/exec"
 	"sort"
 	"strconv"
 	"strings"
@@ -494,7 +495,7 @@ func gen(r *rand.Rand, tier string) []string {
 	}
 	n, nfree := 14, 4
 	if tier == "thorough" {
-		n, nfree = 700, 500
+		n, nfree = 1000, 800
 		// exhaustive small grid: every profile shape x every cause x every position of the cause
 		for _, su := range gridProfiles {
 			out = append(out, withCause(r, su, 0, 0), withCause(r, su, 5, 0))
@@ -552,7 +553,43 @@ func class(in, obs string) string {
 	return c + "/cause:" + cut + "/" + full
 }
 
+// runIsolated runs one case in a child process (this binary, `-child <input>`): a panic in a goroutine of the engine or a
+// fatal runtime error takes down that child only and becomes the observation `PANIC …` of exactly that input.
+func runIsolated(input string) string {
+	ctx, cancel := context.WithTimeout(context.Background(), 75*time.Second)
+	defer cancel()
+	cmd := exec.CommandContext(ctx, os.Args[0], "-child", input)
+	var stdout, stderr strings.Builder
+	cmd.Stdout, cmd.Stderr = &stdout, &stderr
+	err := cmd.Run()
+	if ctx.Err() != nil {
+		return "HANG"
+	}
+	if err != nil {
+		msg := stderr.String()
+		if i := strings.Index(msg, "\n\n"); i > 0 {
+			msg = msg[:i]
+		}
+		if len(msg) > 300 {
+			msg = msg[:300]
+		}
+		return "PANIC " + drv.Clean(msg)
+	}
+	return stdout.String()
+}
+
 func main() {
+	if len(os.Args) == 3 && os.Args[1] == "-child" {
+		done := make(chan string, 1)
+		go func() { done <- run(os.Args[2]) }()
+		select {
+		case o := <-done:
+			fmt.Print(o)
+		case <-time.After(60 * time.Second):
+			fmt.Print("HANG")
+		}
+		return
+	}
 	// the cases mostly sleep: many can run side by side (timing checks are one-sided or margin-guarded, see Spec)
 	workers := 12
 	for i, a := range os.Args {
@@ -563,10 +600,10 @@ func main() {
 	drv.Main(&drv.Prop{
 		ID:      "C12",
 		Gen:     gen,
-		Run:     run,
+		Run:     runIsolated,
 		Class:   class,
 		Workers: workers,
-		Timeout: 60 * time.Second,
+		Timeout: 90 * time.Second,
 		Rule: "scripted scenarios (startup once / const / instance_step / composites / empty; shared and per-instance RPS; ammo exhaustion, RPS end, run cancel and gun " +
 			"creation failure before, inside and after the startup window, during the first Wait) plus scenarios drawn from one PRNG: profiles whose tokens are multiples " +
 			"of 1 s with the cause placed 500 ms away from every token, and free profiles (any spacing, up to 30 instances) with the cause anywhere; thorough adds the full " +
